@@ -43,6 +43,24 @@ reader: the source generator finished; assumed for nested readers), else
 `none`. Verdicts whose `after` is `none` cannot stem from defects 11/12 of
 DESIGN section 6, so every oracle is strict in those runs; `got` tells a hang
 or livelock from a wrong result or exception.
+
+Findings on the pinned tree (both disappear with one-line repairs, after which
+1.3 million histories under 4 seeds are clean):
+
+* async, DESIGN 6 #11 and #12 (one root cause): the last statement of
+  `_iter_delimited` (`yield self._buffer`) hands out the buffer without marking
+  it consumed. Every verdict it causes carries after=eof_without_delimiter.
+* sync: `_read` sets `_buffer_pos = read_size` although the source delivered
+  fewer bytes (stream shorter than max_stream_len, which is the normal case for
+  a delimit() child): `_buffer_pos > _buffer_len`, `_normalize_size(None)` goes
+  negative, a reader made by `delimit()` from that state has a negative budget
+  and its `_read_until` spins forever for delimiters of >= 2 bytes. Verdicts:
+  reader.sync.op.{read_until,readline,readlines} with got=livelock.
+
+Livelocks inside pure-Python reader code are detected deterministically by
+counting backward jumps in reader code objects (PEP 669 local events), see
+`_install_loop_guard`; without `sys.monitoring` (< 3.12) such a defect shows up
+as a wedged worker, i.e. HARNESS-ERROR, never as a pass.
 """
 import json
 import sys
@@ -472,7 +490,7 @@ class Hist(object):
     def gen_delim(self, cur, allow_illegal, prefer_ahead=False):
         ch = self.ch
         cs = cur.cs
-        maxl = cs if cs < 10 else 10
+        maxl = cs if cs < 16 else 16      # legal delimiters: 1..chunk_size bytes
         rem = cur.remaining
         k = ch.draw(13, 'delim')
         if k >= 12 and not allow_illegal:
